@@ -154,8 +154,9 @@ class Run:
             'violations': len(self.violations),
         }
         ev['coverage'].update({k: v for k, v in self.extra.items() if k != 'explanation'})
-        os.makedirs(os.path.join(VERIF, 'evidence'), exist_ok=True)
-        with open(os.path.join(VERIF, 'evidence', self.pid + '.json'), 'w') as f:
+        evdir = os.environ.get('PYVC_EVIDENCE_DIR') or os.path.join(VERIF, 'evidence')
+        os.makedirs(evdir, exist_ok=True)
+        with open(os.path.join(evdir, self.pid + '.json'), 'w') as f:
             json.dump(ev, f, indent=1, default=str)
         print('%s: %d obligations, %d proved, %d known-finding, %d violations, %d undecided, %.1fs (exit %d)' % (
             self.pid, n, proved, known_ob, len(self.violations), len(self.undecided), wall, code))
